@@ -308,7 +308,8 @@ def gen_table(rng, db, P, big=False, e2e=False):
     # decoy files hides the decoy rows, so its expected peptide level is only computable when no two scores tie
     opts = None
     if e2e:
-        opts = dict(fmt=rng.choice(["pin", "pin", "parquet"]), decoys=rng.random() < 0.7, desc=rng.random() < 0.7)
+        opts = dict(fmt=rng.choice(["pin", "pin", "parquet"]), decoys=rng.random() < 0.7, desc=rng.random() < 0.7,
+                    groups=rng.choice([0, 0, 2, 3]))
     if e2e:
         # (tied scores also leave the row order of the peptide level, hence the draw of match_decoy, to the code:
         #  only with decoys in the FASTA)
@@ -461,7 +462,7 @@ def read_tsv(path):
     return pd.read_csv(path, sep="\t", float_precision="round_trip", keep_default_na=False, dtype=str)
 
 
-E2E_DEFAULT = dict(fmt="pin", decoys=True, desc=True)
+E2E_DEFAULT = dict(fmt="pin", decoys=True, desc=True, groups=0)
 
 
 def e2e_opts(case):
@@ -490,6 +491,11 @@ def impl_e2e(case):
             "Peptide": [r["peptide"] for r in rows],
             "Proteins": ["prot"] * len(rows),
         })
+        if opts.get("groups"):
+            # one more roll-up level, coarser than peptides (a group mixes peptides of different proteins): the protein
+            # level must still be picked from the PEPTIDE level, not from the last roll-up level
+            ng = int(opts["groups"])
+            df.insert(len(df.columns) - 1, "PeptideGroup", [f"G{(7 * i + 3) % ng}" for i in range(len(rows))])
         if opts["fmt"] == "parquet":
             pin = d / (name + ".parquet")
             df.to_parquet(pin, index=False)
@@ -911,6 +917,7 @@ def eval_e2e(chk, cases):
         chk.count("proteins_object", "reused-after-another-table" if c.get("warm") else "fresh")
         chk.count("outcome", st if not st.startswith("other") else "other")
         chk.count("e2e_format", opts["fmt"])
+        chk.count("e2e_extra_rollup_level", "PeptideGroup" if opts.get("groups") else "none")
         chk.count("e2e_decoy_files", opts["decoys"])
         chk.count("e2e_higher_is_better", opts["desc"])
         chk.count("e2e_scores", c["smode"])
